@@ -519,6 +519,78 @@ theorem facts_limit :
   revert r
   decide +kernel
 
+/-! ### Megabyte segments: the model on chunks of `a`s, computed on lengths only -/
+
+/-- a chunk of `p.1` bytes `a`, followed by a newline if `p.2` -/
+def aChunk (p : Nat × Bool) : Bytes := List.replicate p.1 97 ++ (if p.2 then [NL] else [])
+
+/-- what a delivered message / a MemoryError looks like when only lengths are recorded -/
+def shape : Out → Option Nat
+  | .msg m => some m.length
+  | .memErr => none
+
+/-- the reader on such chunks, on lengths only -/
+def runLen (max : Nat) : Nat → Bool → List (Nat × Bool) → List (Option Nat)
+  | _, _, [] => []
+  | acc, sync, (n, false) :: cs =>
+      if fits max (acc + n) then runLen max (acc + n) sync cs else none :: runLen max 0 true cs
+  | acc, sync, (n, true) :: cs =>
+      (if sync then [] else [some (acc + n)]) ++ runLen max 0 false cs
+
+theorem replicate_a_noNL (n : Nat) : ∀ b ∈ List.replicate n (97 : UInt8), (b == NL) = false := by
+  intro b hb
+  rw [List.eq_of_mem_replicate hb]
+  decide
+
+theorem procPart_aChunk_false (max : Nat) (acc : Bytes) (sync : Bool) (n : Nat) :
+    procPart max acc sync (aChunk (n, false)) =
+      if fits max (acc.length + n) then ([], acc ++ List.replicate n 97, sync)
+      else ([Out.memErr], [], true) := by
+  rw [procPart_eq_trun]
+  simp only [aChunk, Bool.false_eq_true, ↓reduceIte, List.append_nil, trun_append,
+    trun_bytes_noNL max acc sync _ (replicate_a_noNL n), trun, tstep, List.length_append,
+    List.length_replicate]
+  split <;> simp
+
+theorem procPart_aChunk_true (max : Nat) (acc : Bytes) (sync : Bool) (n : Nat) :
+    procPart max acc sync (aChunk (n, true)) =
+      (if sync then [] else [Out.msg (acc ++ List.replicate n 97)], [], false) := by
+  rw [procPart_eq_trun]
+  simp only [aChunk, ↓reduceIte, List.map_append, List.map_cons, List.map_nil, List.append_assoc,
+    trun_append, trun_bytes_noNL max acc sync _ (replicate_a_noNL n), trun, tstep]
+  simp [NL, fits]
+
+/-- **the model on chunks of `a`s only depends on the lengths** (any sizes: no evaluation on
+    megabytes of data is needed to know what the model says) -/
+theorem run_aChunks (max : Nat) : ∀ (cs : List (Nat × Bool)) (acc : Bytes) (sync : Bool),
+    (run max acc sync (cs.map aChunk)).map shape = runLen max acc.length sync cs
+  | [], _, _ => by simp [run, runLen]
+  | (n, false) :: cs, acc, sync => by
+    simp only [List.map_cons, run, procPart_aChunk_false, runLen]
+    split
+    · have := run_aChunks max cs (acc ++ List.replicate n 97) sync
+      simp only [List.length_append, List.length_replicate] at this
+      simpa using this
+    · simpa [shape] using run_aChunks max cs [] true
+  | (n, true) :: cs, acc, sync => by
+    simp only [List.map_cons, run, procPart_aChunk_true, runLen, List.map_append]
+    have := run_aChunks max cs [] false
+    simp only [List.length_nil] at this
+    rw [this]
+    cases sync <;> simp [shape]
+
+/-- **megabyte segments on the real framer** (limit 0 = unlimited, one million, and the default of
+    `NewlineFramer()`; segments of 999 999, 1 000 000, 1 000 001 and 2 500 000 bytes in two or
+    more chunks, the newline in its own chunk or in the final one, followed by a short segment):
+    lengths delivered / MemoryErrors are the model's.  Limit 0 never drops (`unlimited`). -/
+theorem facts_big :
+    ∀ r ∈ Facts.C06.bigTable,
+      (run r.1 [] false (r.2.1.map aChunk)).map shape = r.2.2 := by
+  intro r hr
+  rw [run_aChunks]
+  revert r
+  decide +kernel
+
 -- Non-vacuity: concrete, non-trivial instances of the hypotheses / conclusions.
 example : run 5 [] false [[97,98,10,99], [100,10], [1,2,3,4,5,6], [7,10,8,10]]
     = [.msg [97,98], .msg [99,100], .memErr, .msg [8]] := by rw [run_eq_trun]; decide
